@@ -19,6 +19,7 @@ THEOREMS = [
     ("EG.props.C01", "C01_valid_never_panics"),
     ("EG.props.C01", "C01_mapper_history_503"),
     ("EG.props.C01", "C01_mapper_history_dispatch"),
+    ("EG.props.C01", "C01_rawpath_irrelevant"),
 ]
 HARNESSES = [
     dict(name="route", pkg="pkg/object/httpserver", files=["harness/httpserver/zz_verif_c01_test.go"],
@@ -112,7 +113,7 @@ def enc_reqs(i):
     out = []
     for rq, ro in zip(i.get("reqs") or [], i["oracle"].get("reqs") or []):
         out.append(Rec(rq_host=S(rq["host"]), rq_method=S(rq["method"]), rq_path=S(rq["path"]),
-                       rq_headers=L([T(S(k), S(v)) for k, v in ro.get("hdr") or []]), rq_ip=S(ro["realip"])))
+                       rq_rawpath=S(rq.get("rawpath") or ""), rq_headers=L([T(S(k), S(v)) for k, v in ro.get("hdr") or []]), rq_ip=S(ro["realip"])))
     return L(out)
 
 
